@@ -170,7 +170,7 @@ def gen_exact_cases(chk):
     rng = random.Random(chk.seed * 7919 + 11)
     big = chk.tier == 'thorough'
     cases = []
-    n = 1500 if big else 168
+    n = 3500 if big else 168
     for k in range(n):
         c = gen_case(rng, k, chk.tier)
         c['op'] = 'eval'
@@ -256,7 +256,7 @@ def gen_object_cases(chk):
     rng = random.Random(chk.seed * 104729 + 11)
     big = chk.tier == 'thorough'
     cases = []
-    for k in range(60 if big else 12):
+    for k in range(150 if big else 12):
         degv = 3 if k % 2 == 0 else rng.choice([1, 2, 4, 5])
         uni = [True, True, True, not (k % 4 == 3)]
         nv = rng.randint(max(6, degv + 3), 16)
@@ -427,10 +427,33 @@ def run():
 
 
 def replay(path):
+    """re-execute the recorded exact case against the current tree (cases are regenerated from seed and tier);
+    failures recorded on real objects (float link) are replayed by re-running the check with the same seed"""
     core.setup_paths()
-    body = json.load(open(path))
-    print(json.dumps({k: body[k] for k in ('property', 'key', 'what')}, indent=1))
     import os
+    body = json.load(open(path))
+    print(json.dumps({k: body[k] for k in ('property', 'key', 'what')}, indent=1)[:2000])
     os.environ['VERIF_SEED'] = str(body.get('seed'))
     os.environ['VERIF_TIER'] = str(body.get('tier'))
+    rc = body.get('replay', {}).get('case', {}) if isinstance(body.get('replay'), dict) else {}
+    if isinstance(rc, dict) and 'k' in rc and 'op' in rc:
+        chk = core.Check('C11', 'proof')
+        chk.seed, chk.tier = int(body['seed']), body['tier']
+        hit = [c for c in gen_exact_cases(chk) if c['k'] == rc['k'] and c['op'] == rc['op']]
+        if hit:
+            c = hit[0]
+            r = exact_case(c)
+            m = core.model([model_line(c)])
+            print('implementation:', str(r['impl'])[:600])
+            print('model         :', str(m[0])[:600])
+            print('failed direct oracles:', r['orc'])
+            impl = r['impl']
+            if isinstance(impl, str) and impl.startswith('ok') and m[0].startswith('ok'):
+                same = [qparse(t) for t in impl.split()[1:]] == [qparse(t) for t in m[0].split()[1:]]
+            else:
+                same = isinstance(impl, str) and impl.split(' ')[:2] == m[0].split(' ')[:2]
+            if isinstance(impl, list):
+                same = all(x.replace(' ', '') == y[2:].replace(' ', '') for x, y in zip(impl, m))
+            print('agree' if same and not r['orc'] else 'STILL FAILING')
+            return 0 if same and not r['orc'] else 1
     return run()
